@@ -271,6 +271,7 @@ func (c *classifier) classify() (string, string) {
 	// the whole body is scanned even after the first order-sensitive statement, so that the
 	// appends (and whether they are sorted later) are counted for every site
 	c.block(c.loop.Body.List)
+	c.closureCalls()
 	var sorts []string
 	unsorted := ""
 	for i, o := range c.appends {
@@ -293,6 +294,28 @@ func (c *classifier) classify() (string, string) {
 		return "Comm", ""
 	}
 	return "SortedAfter", strings.Join(sorts, "; ")
+}
+
+// closureCalls: a call of a function-typed variable declared outside the loop (a closure such as
+// sortMap's visit) may carry state from one iteration to the next, wherever it occurs (conditions
+// included): order-sensitive.
+func (c *classifier) closureCalls() {
+	ast.Inspect(c.loop.Body, func(n ast.Node) bool {
+		call, ok := n.(*ast.CallExpr)
+		if !ok {
+			return true
+		}
+		id, ok := call.Fun.(*ast.Ident)
+		if !ok {
+			return true
+		}
+		if v, ok := c.info.Uses[id].(*types.Var); ok && !(v.Pos() >= c.loop.Pos() && v.Pos() < c.loop.End()) {
+			if _, isFn := v.Type().Underlying().(*types.Signature); isFn {
+				c.fail(call, "call of a closure variable")
+			}
+		}
+		return true
+	})
 }
 
 // fail records the first order-sensitive statement; scanning continues.
